@@ -1,7 +1,7 @@
 (** C02 — Joining a task returns that task's own result once it finishes.
     (positive theorems for one pool are added by Sched/PoolProofs; this file holds what is
     established so far) *)
-From OCV Require Import Cases.Pool.
+From OCV Require Import Cases.Pool Sched.Join Sched.JoinProofs.
 Open Scope Z_scope.
 
 Definition c02_witness : pcase :=
@@ -19,4 +19,30 @@ Theorem C02_refuted_result_in_stealing_pool :
                               OWait WTimeout].
 Proof. exists c02_witness. vm_compute. repeat split; auto. Qed.
 
+(** * The wait/notify protocol, every interleaving of waiter, completer and timeout *)
+
+Theorem C02_no_lost_wakeup : forall sched, lost_wakeup (jrun Repaired sched) = false.
+Proof. exact no_lost_wakeup. Qed.
+
+(** prompt: once the task has completed a waiter that has not returned can proceed without its timeout *)
+Theorem C02_prompt : forall sched, prompt_ok (jrun Repaired sched) = true.
+Proof. exact prompt. Qed.
+
+(** a result is handed out only after the task produced it, and only once *)
+Theorem C02_own_result_protocol : forall p sched, own_result_ok (jrun p sched) = true.
+Proof. exact own_result. Qed.
+
+(** a waiter that was woken (not timed out) always finds the result *)
+Theorem C02_woken_means_result : forall sched, timeout_ok (jrun Repaired sched) = true.
+Proof. exact woken_means_result. Qed.
+
+(** before the repair: the task completes between the first check and the registration *)
+Theorem C02_refuted_old_protocol : exists sched, lost_wakeup (jrun Old sched) = true.
+Proof. exact old_protocol_lost_wakeup. Qed.
+
 Print Assumptions C02_refuted_result_in_stealing_pool.
+Print Assumptions C02_no_lost_wakeup.
+Print Assumptions C02_prompt.
+Print Assumptions C02_own_result_protocol.
+Print Assumptions C02_woken_means_result.
+Print Assumptions C02_refuted_old_protocol.
